@@ -1,6 +1,7 @@
 import NxProofs.Schema
 import NxProofs.Rmc
 import NxProofs.RmcClient
+import NxProofs.RmcClientX
 import NxProofs.Channel
 import NxProofs.Cipher
 import NxProofs.Negotiation
@@ -133,6 +134,41 @@ theorem rpc_concurrent_own_result {env : Env} {cfg : Cfg} {fuel : Nat} {m : Meth
     obtain ⟨he, hb⟩ := hans id msg hs (by simpa using s2) s3
     refine ⟨?_, clientResponse_of_server (serverResponse_ok h)⟩
     rw [s4]; unfold RmcClient.outcomeOf; simp [he, hb]
+
+/-- a call id names ONE request message of a connection — requests of response-less protocols included: they use up an
+    id like every other request although nobody waits under it (`request(..., noresponse=True)`), as long as the 32-bit
+    counter does not wrap -/
+theorem one_way_request_has_its_own_call_id (ops : List RmcClient.Op) (hn : RmcClient.nCalls ops < 4294967295)
+    (t u id : Nat) (ht : RmcClient.Out.sent t id ∈ (RmcClient.run RmcClient.init ops).2)
+    (hu : RmcClient.Out.sent u id ∈ (RmcClient.run RmcClient.init ops).2) : t = u :=
+  RmcClient.sent_ids_distinct RmcClient.init ops (by simp [RmcClient.init]; omega) t u id ht hu
+
+/-- **response-less (one-way) calls mixed with ordinary calls on one connection.** Whether a peer answers a one-way
+    request is not under the caller's control: only a peer that registered a handler for the protocol knows that it is
+    response-less; a peer without one answers like for every unknown protocol id, with Core::NotImplemented under the
+    request's call id. So the hypothesis about the peer is only: every response the client's loop receives is the reaction
+    to SOME request message of this connection (it carries the call id under which a request `u` — ordinary or one-way —
+    went out), and the reactions to caller `t`'s own request are the server's answer to it (success, body = what the
+    generated server wrote for the values `res`). Then `t` — any interleaving of `request()` sections (ordinary and
+    one-way), received datagrams, closures and resumptions — is told "closed", or was itself one-way, or is handed exactly
+    that body and decodes it to the visible results: reactions to other requests, the stray errors for one-way requests
+    included, never reach it. -/
+theorem rpc_mixed_one_way_own_result {env : Env} {cfg : Cfg} {fuel : Nat} {m : MethodDef} {res : List Val} {body : Bytes}
+    (h : serverResponse env cfg fuel m res = .ok body)
+    (ops : List RmcClient.Op) (hn : RmcClient.nCalls ops < 4294967295) (t : Nat) (o : RmcClient.Outcome)
+    (hdone : RmcClient.Out.done t o ∈ (RmcClient.run RmcClient.init ops).2)
+    (hpeer : ∀ msg, RmcClient.Op.recvResponse msg ∈ ops →
+        ∃ u id, RmcClient.Out.sent u id ∈ (RmcClient.run RmcClient.init ops).2 ∧ msg.callId = id ∧
+          (u = t → msg.error = -1 ∧ msg.body = body)) :
+    o = .closed ∨ o = .none ∨
+      (o = .body body ∧ clientResponse env cfg fuel m body = .ok (visArgs env cfg fuel m.response res)) := by
+  refine rpc_concurrent_own_result h ops hn t o hdone ?_
+  intro id msg hs hr hid
+  obtain ⟨u, id', hs', hid', hown⟩ := hpeer msg hr
+  have hsame : u = t := by
+    refine one_way_request_has_its_own_call_id ops hn u t id' hs' ?_
+    rw [← hid', hid]; exact hs
+  exact hown hsame
 
 /-- methods the definition marks unsupported, methods a server class leaves unimplemented and unknown method
     ids all end in `Core::NotImplemented` -/
@@ -283,6 +319,14 @@ example : (RmcClient.run RmcClient.init [.call false, .call false,
       .wake 0, .wake 1]).2
     = [.sent 0 1, .sent 1 2, .set 1, .set 0, .done 0 (.body [1]), .done 1 (.body [2, 2])] := by decide
 example : RmcClient.nCalls [.call false, .call false, .wake 0] < 4294967295 := by decide
+-- a one-way request (call id 1) to a peer without a handler for its protocol, directly followed by an ordinary call (call id 2):
+-- the peer's Core::NotImplemented for the one-way request is dropped ("invalid call id"), the ordinary caller gets its own body
+example : (RmcClient.run RmcClient.init [.call true, .call false,
+      .recvResponse { mode := 1, protocol := 14, method := none, callId := 1, error := 0x10002, body := [] },
+      .recvResponse { mode := 1, protocol := 10, method := some 2, callId := 2, error := -1, body := [7] },
+      .wake 1]).2
+    = [.sent 0 1, .done 0 .none, .sent 1 2, .warnInvalidCallId 1, .set 1, .done 1 (.body [7])] := by decide
+example : RmcClient.nCalls [.call true, .call false, .wake 1] < 4294967295 := by decide
 example : (Rmc.Spec.request 21 1 1 [7, 0, 0, 0]).WF := by decide
 example : dispatch Ex.proto (fun _ => true) 2 = .notImplemented ∧ dispatch Ex.proto (fun _ => true) 1 = .run Ex.meth
     ∧ dispatch Ex.proto (fun _ => false) 1 = .notImplemented ∧ dispatch Ex.proto (fun _ => true) 3 = .notImplemented := by decide
